@@ -1288,10 +1288,10 @@ def _parse_Hamiltonian(H: Hamiltonian, n_dt: int, H_str: str) -> Tuple[Sequence[
     # parse the identifiers
     if identifiers is None:
         if H_str == 'H_c':
-            identifiers = np.fromiter((f'A_{i}' for i in range(len(opers))), dtype='<U4')
+            identifiers = np.array([f'A_{i}' for i in range(len(opers))])
         else:
             # H_str == 'H_n'
-            identifiers = np.fromiter((f'B_{i}' for i in range(len(opers))), dtype='<U4')
+            identifiers = np.array([f'B_{i}' for i in range(len(opers))])
     else:
         for i, identifier in enumerate(identifiers):
             if identifier is None:
